@@ -64,8 +64,12 @@ CHECKS = {
         "equality on exhaustive small trees and random trees; the round trip render->parse->equal and the fixpoint are executed on the real "
         "code for every generated tree. Props/C13Text.lean (3 700 lines with its lemma files): `roundtrip_text` - for every printable tree whose identifier / literal tokens lex to themselves "
         "also next to a blank (lexableE', decidable), the CHARACTERS the printer model emits are lexed and parsed back to that tree (parse_text: for every whitespace style and parenthesisation "
-        "mode). The weaker condition first stated is refuted in Lean (parse_text_original_false: an identifier named like an operator keyword) - that is the known finding (identifier `not`).",
-   note="Trusted: Lean kernel, standard axioms, harness. lexableE' excludes exactly the keyword-named identifiers of the known finding. Five printer defects were repaired first (fix: 6e13462 b3ff485 5b649a4 51169b6).",
+        "mode). The weaker condition first stated is refuted in Lean (parse_text_original_false: an identifier named like an operator keyword) - that is the known finding (identifier `not`). "
+        "Props/C13Accepted.lean (3 300 lines): the property's own quantifier, 'every AST the parser can produce' - `roundtrip_accepted`: for EVERY accepted ASCII text s, if parseText s = ok e "
+        "(and no identifier of e is spelled like an operator keyword or is a reserved word left over from a dropped namespace) then parseText (rtRender e) = ok e, and `render_fixpoint`; from "
+        "`lexed_lexable` (lexer idempotence on every emitted literal / identifier token), a provenance invariant of the parser (`accepted_lexable`) and C10.parse_image. The first statement was "
+        "refuted by `x/a.true eq 1` (accepted_lexable_original_false) - reproduced on the real code: second known finding.",
+   note="Trusted: Lean kernel, standard axioms, harness. lexableE' excludes exactly the keyword-named identifiers of the known finding; kwFree excludes exactly the reserved words left by a dropped namespace (lexable_kwFree: it is necessary). Known findings: identifier `not`; namespace of a path segment dropped (x/a.true). Five printer defects were repaired first (fix: 6e13462 b3ff485 5b649a4 51169b6).",
    design="§6 C13", technique="Lean 4 proof (order-embedding of precedence tables, paren soundness) + tie theorem + string-exact differential correspondence + executed round trip"),
  "C10": dict(
    text="Lean 4 theorem `C10.total`: for EVERY string and every character-class environment, the lexer+parser model returns an AST or one of the "
@@ -151,9 +155,12 @@ CHECKS = {
         "(not_handler_of_ns). Completeness of a successful SQL translation is C09's parse_mirror. Executed: the node-kind x operand-position matrix and every built-in x "
         "argument kind x position, for the three SQL dialects and the roundtrip printer against the model (outcome class, payload, text), and for Django / SQLAlchemy ORM / "
         "Core on the strictly well-typed subset plus relational filters with unknown fields at every depth and same-named relationships on different models. "
-        "Both hypotheses hold for every accepted filter: callsOk by C10.parse_image (Props/C10Image.lean), durOk by C06.accepted_litOk (Props/C06Image.lean, ASCII texts).",
-   note="Trusted: Lean kernel, standard axioms, Spec/TypesStrict.lean, harness. Partial: the ORM backends' outcome classes are observed on the real code only (Django's and "
-        "SQLAlchemy's internals are not modelled); a refusal raised by the host ORM itself (Django FieldError) is counted as a refusal. Nine leaks were repaired first "
+        "Both hypotheses hold for every accepted filter: callsOk by C10.parse_image (Props/C10Image.lean), durOk by C06.accepted_litOk (Props/C06Image.lean, ASCII texts). "
+        "ORM backends (Props/C12Orm.lean): `dj_never_leaks_welltyped`, `sa_never_leaks_welltyped` - for EVERY tree in the parser's image (printable) that is well-typed in Spec/TypesStrict under any "
+        "field typing (every built-in, every overload, every literal kind, null wherever a primitive is expected) the models of the Django visitor and of the SQLAlchemy ORM / Core visitors return a "
+        "translation, a library exception or the documented NotImplementedError, never a Python-level error ('unmodelled': geography literals and geo functions, covered by execution).",
+   note="Trusted: Lean kernel, standard axioms, Spec/TypesStrict.lean, harness. Partial: beyond the visitor models (Model/Orm.lean, tied by the outcome correspondences of C02 / C03 / C12) Django's and "
+        "SQLAlchemy's internals are not modelled; a refusal raised by the host ORM itself (Django FieldError) is counted as a refusal. Nine leaks were repaired first "
         "(fix: b3ff485 c4949ac 0ae8f2a a3e3835 2c1d307 aff910a a628179 4813a75 3d0299d e93080a 235cac7 71c633b cf3d3cd). Judged on every run besides the matrix: in-list completeness on the ORMs (every element incl. null "
         "reaches the compiled IN list), literals without a value (2020-02-30) must be refused by the value-binding backends, field names that are attributes of the lookup objects (items, values, registry, "
         "__tablename__ ...) are that column or an invalid field.",
